@@ -582,6 +582,9 @@ def run(ctx, tier):
     results += c02.reload_rule(ctx, rule='C15.reload')
     # files written by the current code conform to the layout: the slot number stored in a header image is the slot the page is written to (computed, not copied)
     results += c02.alternate_rule(ctx, rule='C15.alternate')
+    # "accepts further commits": every transaction takes its header through the selection function (new format first, then legacy), not from a format decided once at open
+    import c09
+    results += c09.snapshot_source(ctx, rule='C15.snapshot-source')
     return dict(
         results=results, stats=dict(ctx.stats),
         explanation=(
@@ -589,5 +592,5 @@ def run(ctx, tier):
             'structs, the evaluated format constants, the ordered checksum recipes (hasher type, field order, big-endian encoding) of the current and the legacy header, and the '
             'constants of the creation image all equal format_pinned.json (taken from the pinned release); header selection tries the current format first and still reaches the '
             'legacy validation, whose conversion copies every field from its namesake and re-seals; the commit writes every header field from its namesake; a header is only used '
-            'behind a page-size comparison that refuses a mismatch, and opening an existing file is write-free (so the refusal leaves the file unmodified); element serialiser and readers agree on the fields; no mask / shift arithmetic on the page size (files at non-power-of-two page sizes such as 5000 are supported). NOT decided: that a file opens with identical logical contents.'),
+            'behind a page-size comparison that refuses a mismatch, and opening an existing file is write-free (so the refusal leaves the file unmodified); element serialiser and readers agree on the fields; no mask / shift arithmetic on the page size (files at non-power-of-two page sizes such as 5000 are supported). (payload-origin) every payload accessor of the page header starts at the address of Page.ptr; (open-refusals) explicit refusal sites on the open path do not outnumber the pinned ones; (snapshot-source) each transaction takes its header through the selection function. NOT decided: that a file opens with identical logical contents.'),
         assumptions=['format_pinned.json is the format of the pinned release (generated from it once and cross-checked with layout_of)'])
